@@ -431,6 +431,51 @@ def run(db: DB, rep: Report) -> None:
     rep.rule("K3", "loop nest chain: loops in order, update innermost, ends reversed; recursive consumption", 4)
     _check_chain(db, rep, fg, tn)
 
+    # ---- K7 per-level dependence decisions use per-level facts -----------------------
+    rep.rule("K7", "the leader-fiber dependence of a level is decided from that level alone", 1)
+    bd = fg.methods.get("__build_dyn_part")
+    if bd is None:
+        raise AnalysisError("FlowGraph.__build_dyn_part not found")
+    n_k7 = 0
+    for lp in [n for n in walk_no_nested(bd.node) if isinstance(n, ast.For)]:
+        edges = [x for s_ in lp.body for x in ast.walk(s_) if isinstance(x, ast.Call) and
+                 isinstance(x.func, ast.Attribute) and x.func.attr == "add_edge" and x.args and
+                 norm(x.args[0]).startswith("FiberNode(")]
+        if not edges:
+            continue
+        it_names, it_exprs = paths.backward_slice(bd.node, paths.load_names(lp.iter), with_control=False)
+        for e in edges:
+            n_k7 += 1
+            aggregates = []
+            for t, pol in paths.guards(e, stop=lp):
+                for nm in paths.load_names(t):
+                    defs_in = any(isinstance(x, ast.Name) and isinstance(x.ctx, ast.Store) and x.id == nm
+                                  for s_ in lp.body for x in ast.walk(s_))
+                    if defs_in or nm in {x.id for x in ast.walk(lp.target) if isinstance(x, ast.Name)}:
+                        continue
+                    # defined outside the loop: must not be computed by walking the loop's own collection
+                    nms, exprs = paths.backward_slice(bd.node, [nm], with_control=True)
+                    if any(isinstance(x, (ast.For, ast.comprehension)) and
+                           (paths.load_names(x.iter) & (paths.load_names(lp.iter) | set()))
+                           for st, v in paths.defs_of(bd.node, nm) for x in [st] if isinstance(st, (ast.For, ast.comprehension))):
+                        aggregates.append(nm)
+                        continue
+                    for st, v in paths.defs_of(bd.node, nm):
+                        p_ = getattr(st, "parent", None)
+                        while p_ is not None and p_ is not bd.node:
+                            if isinstance(p_, ast.For) and p_ is not lp and \
+                                    (paths.load_names(p_.iter) & paths.load_names(lp.iter)):
+                                aggregates.append(nm)
+                            p_ = getattr(p_, "parent", None)
+            rep.check("K7", not aggregates, db.loc(e), "FlowGraph." + bd.name, "leader-edge-guard",
+                      "the edge %s is decided from facts of its own level" % norm(e)[:50],
+                      "whether the partitioning of a level waits for the leader's fiber (%s) is decided from %s, "
+                      "which is accumulated over all levels of the rank: a tensor that leads one level but "
+                      "follows another loses the dependence, and its split is emitted before the fiber it "
+                      "reads is bound" % (norm(e)[:50], sorted(set(aggregates))))
+    if n_k7 < 1:
+        raise AnalysisError("leader-fiber edge of __build_dyn_part not found")
+
     # ---- K4 hoist guard --------------------------------------------------------
     rep.rule("K4", "hoisting is guarded by non-descendance of the processed loop and inserts at its index", 1)
     _check_hoist(db, rep, fg)
@@ -760,6 +805,10 @@ def mutants(db: DB):
           "        chain.append(OtherNode(\"Body\"))\n        for rank in loop_order:\n            chain.append(LoopNode(rank))", "K3"),
         M("recursion does not skip consumed nodes", hf, "                code.add(SFor(payload, expr, body))\n                i += j",
           "                code.add(SFor(payload, expr, body))", "K3"),
+        M("leader set accumulated over all levels", fg,
+          "        # Connect them to the relevant destination ranks\n        for srcs in src_ranks:",
+          "        leaders = set()\n        for srcs0 in src_ranks:\n            if len(srcs0) == 1:\n                leaders.add(part.get_leader(srcs0[0], part.partition_names(srcs0, False)[-1]))\n\n        # Connect them to the relevant destination ranks\n        for srcs in src_ranks:",
+          (), benign=True, note="unused aggregate: silent"),
         M("descendants -> ancestors", fg, "nx.descendants(self.graph, LoopNode(rank))",
           "nx.ancestors(self.graph, LoopNode(rank))", "K4"),
         M("remove not-in-descendants test", fg, "                if self.sorted[i] not in descendants:",
